@@ -6,6 +6,10 @@
              nsend: messages sent on gate 0 at every (re)start; selfd: delays of self messages
              tasks: d = 0 blocked on a receive for ever, d > 0 sleeps d ns and ends
              trig%4: 0 none 1 shutdown 2 shutdown+restart in trigd 3 panic -- when handling its trign-th message
+             (trig/4)%6: 0 scripted Module, 1..5 a builder block of blocks.rs (see World.c_kind) for which trig%4 means
+               AsyncFn: 1 the task returns 2 the task asks for shutdown+restart 3 the task fails (failable/io)
+               ModuleFn::failable: 1 Continue 2 Restart 3 Panic; HandlerFn::failable: 3 Panic
+             log kinds: 1 start 2 message 3 task finished 4 end 5 reset 6 task failed
              endsend: at_sim_end schedules one more self message (stays in the static event buffer)
    link   := ma ga mb gb chan       gate ga of module ma .connect( gate gb of module mb, channel? )
    inj    := kind m time            kind odd: add_message_onto(gate 0 of m), even: handle_message_on(m)
@@ -51,7 +55,7 @@ Definition add_module (hold : bool) (w : world) (c : mcfg) : world :=
   let depth := match par with Some (_, p) => S (m_depth p) | None => 1%nat end in
   let '(s1, ctx, proc, q) := new_module (w_st w) (w_tree w)
                                (match par with Some (_, p) => Some (m_ctx p, m_proc p) | None => None end)
-                               depth (N.of_nat i) (elem_ids i (c_npe c)) in
+                               depth (N.of_nat i) (elem_ids i (if c_kind c =? 0 then c_npe c else 0)) in
   (* the ModuleRef returned by `node` is kept by the caller, or dropped at once *)
   let s2 := if hold then s1 else p_release (p_release s1 ctx) proc in
   let r := {| m_cfg := c; m_ctx := ctx; m_proc := proc; m_queue := q; m_depth := depth; m_rt := None; m_gates := [];
@@ -188,8 +192,9 @@ Fixpoint dispatch_all (fuel : nat) (w : world) (max_itr max_time : option N) : w
 Definition sim_end (w : world) : world :=
   fold_left (fun wa i =>
     let w1 := ensure_rt (activate wa i) i in
-    let w2 := wlog w1 i 4 0 in
-    let w3 := if c_endsend (m_cfg (getm w2 i)) then do_schedule w2 i 1 else w2 in
+    let scripted := c_kind (m_cfg (getm w1 i)) =? 0 in
+    let w2 := if scripted then wlog w1 i 4 0 else w1 in
+    let w3 := if scripted && c_endsend (m_cfg (getm w2 i)) then do_schedule w2 i 1 else w2 in
     deactivate (poll_tasks w3 i) i) (w_order w) w.
 
 Fixpoint drain (fuel : nat) (q : sp) : list nat :=
